@@ -787,8 +787,11 @@ class ParallelProcess(Process):
             raise RuntimeError(
                 'Trying to retrieve command result, but no command is '
                 'pending.')
+        # (the command stays pending until its result has arrived: the
+        # wait may be interrupted)
+        result = self.parent.recv()
         self._pending_command = None
-        return self.parent.recv()
+        return result
 
     def initial_state(self, config: Optional[dict] = None) -> State:
         return self.run_command('initial_state', (config,))
@@ -873,6 +876,12 @@ class ParallelProcess(Process):
         # told to stop: it is only reaped.
         if self.multiprocess.is_alive():
             try:
+                if self._pending_command:
+                    # A result nobody collected is taken out of the
+                    # pipe: the worker may be blocked sending it and
+                    # would never read 'end'.
+                    self.parent.recv()
+                    self._pending_command = None
                 self.send_command('end')
                 if self.profile:
                     stats = pstats.Stats()
